@@ -7,6 +7,7 @@ whole end-blocks) with an arbitrary fault (any collaborator call class, any call
 into every operation.
 -/
 import PalomaModel.Lemmas.Bridge
+import PalomaModel.Gen.Atomicity
 
 namespace Paloma.Bridge
 open List
@@ -664,6 +665,21 @@ theorem failed_op_is_noop (s : St) (f : Fault) :
         split
         · intro _; rfl
         · intro hc; simp at hc
+
+/-- the keeper functions the model treats as all-or-nothing -/
+def mustBeAtomic : List String := [
+  "x/skyway/keeper.Keeper.BuildOutgoingTXBatch", "x/skyway/keeper.Keeper.CancelOutgoingTXBatch",
+  "x/skyway/keeper.Keeper.OutgoingTxBatchExecuted", "x/skyway/keeper.Keeper.UpdateBatchGasEstimate",
+  "x/skyway/keeper.Keeper.processAttestation" ]
+
+/-- **bridge_mutators_atomic.** In the current source (table regenerated by the extractor on every
+run) each of these functions opens a cached context, commits it only on success, and never hands
+the OUTER context to a callee once the cached one exists — which is what `failed_op_is_noop`
+assumes of them. Dropping the guard, committing unconditionally, or writing through the outer
+context makes this `decide` fail. -/
+theorem bridge_mutators_atomic :
+    (mustBeAtomic.all fun f => Paloma.Gen.Atomicity.cachedFunctions.any fun c =>
+      c.fn == f && c.conditionalCommit && c.outerContextUses.isEmpty) = true := by decide
 
 /-- **ids_fresh.** A new transfer gets an id above every id ever accepted; a new batch a nonce
 above every open batch's nonce. -/
